@@ -803,11 +803,11 @@ pub fn grid(op: &str, limit: usize) -> (usize, Vec<(Args, Outcome)>) {
             }
         }
         ["xpath", "corpus"] | ["xpath", "corpus_paths"] | ["xpath", "corpus_scalars"] | ["xpath", "corpus_scalars0"] | ["xpath", "corpus_names"] => {
-            // corpus_names: documents 1 and 5 (namespaces); corpus_paths: node-set results of the other documents; corpus_scalars: the rest
+            // corpus_names: documents 1, 5 and 8 (namespaces); corpus_paths: node-set results of the other documents; corpus_scalars: the rest
             for line in crate::ops_seq::XPATH_CORPUS.lines() {
                 let mut it = line.splitn(3, '\t');
                 let (d, q, e) = (it.next().unwrap_or(""), it.next().unwrap_or(""), it.next().unwrap_or(""));
-                let part = if d == "1" || d == "5" { "corpus_names" } else if e.starts_with("NS:") { "corpus_paths" } else { "corpus_scalars" };
+                let part = if d == "1" || d == "5" || d == "8" { "corpus_names" } else if e.starts_with("NS:") { "corpus_paths" } else { "corpus_scalars" };
                 // corpus_scalars0 (C09): the scalar results over document 0 -- the function and operator pools
                 let wanted = parts[1] == "corpus" || parts[1] == part || (parts[1] == "corpus_scalars0" && part == "corpus_scalars" && d == "0");
                 if !wanted {
